@@ -73,6 +73,29 @@ def checkLet (name : Bytes) : C Unit :=
 def declare (name : Bytes) (isLet : Bool) : C Unit :=
   modify fun st => { st with vars := st.vars ++ [{ name := name, isLet := isLet, used := false }] }
 
+/-- `index`, `isFirst`, `isLast`: the functions that speak about a loop -/
+def loopFn (name : Bytes) : Bool :=
+  name == [105, 110, 100, 101, 120] || name == [105, 115, 70, 105, 114, 115, 116]
+    || name == [105, 115, 76, 97, 115, 116]
+
+/-- what a loop function is applied to: `some x` when there is exactly one argument and it is the
+    plain reference `$x` (a DataRefNode with no access) -/
+def loopArg : ExprList → Option Bytes
+  | .cons (.dataRef _ key .nil) .nil => some key
+  | _ => none
+
+/-- some binding of that name is a loop variable (a {let} of the same name does not matter) -/
+def isLoopVar (vars : List Binding) (key : Bytes) : Bool :=
+  vars.any fun v => v.name == key && !v.isLet
+
+/-- `checkLoopFunc` (called for the loop functions only) -/
+def checkLoopFunc (args : ExprList) : C Unit := do
+  match loopArg args with
+  | none => reject
+  | some key =>
+    let st ← get
+    if isLoopVar st.vars key then pure () else reject
+
 section
 variable (reg : List Template) (params : List Bytes)
 
@@ -100,7 +123,9 @@ mutual
       let outer := st.vars.length
       checkAccesses acc
       leaveScope outer
-    | .func _ _ args => checkExprs args
+    | .func _ name args => do
+      (if loopFn name then checkLoopFunc args else pure ())
+      checkExprs args
     | .list _ items => checkExprs items
     | .map _ items => checkMapItems items
     | .not _ a => checkExpr a
